@@ -170,6 +170,7 @@ class TypeEnv:
             nm = n.id
             prim = {'int': INT, 'bool': BOOL, 'str': STR, 'float': FLOAT, 'bytearray': BYTEARRAY,
                     'bytes': BYTES, 'None': NONE, 'opaque': OPAQUE, 'cfg': CFG, 'union': Ty('union'), 'sio': SIO,
+                    'version': Ty('version'),
                     'match': Ty('match')}
             if nm in prim:
                 return prim[nm]
